@@ -824,18 +824,19 @@ def _plans(quick):
             ("simulate_to_30_models", dict(max_updates=3, noobs_at=[1], **sim), dict(simulate="num=120", depth=400)),
         ]
     return [
-        ("exhaustive_smm_2to4_models", dict(kinds=["smm"], nmodels=[2, 3, 4], lvals=[0, 1, 3], th="ThAll", pct="PctAll",
+        ("exhaustive_smm_2to4_models", dict(kinds=["smm"], nmodels=[2, 3, 4], lvals=[0, 1, 3], th="ThAll", pct="PctThree",
                                             mix="MixOne", layouts=[1], max_updates=3, big_n=4, noobs_at=[1, 2]), {}),
-        ("exhaustive_smm_4_likelihood_values", dict(kinds=["smm"], nmodels=[2, 3], lvals=[0, 1, 2, 3], th="ThQuick",
-                                                    pct="PctQuick", mix="MixOne", layouts=[2], max_updates=4, big_n=3,
+        ("exhaustive_smm_4_likelihood_values", dict(kinds=["smm"], nmodels=[2, 3], lvals=[0, 1, 2, 3], th="ThOne",
+                                                    pct="PctOne", mix="MixOne", layouts=[2], max_updates=3, big_n=99,
                                                     noobs_at=[1]), {}),
-        ("exhaustive_smm_5to7_models", dict(kinds=["smm"], nmodels=[5, 6, 7], lvals=[0, 1, 3], th="ThAll", pct="PctQuick",
+        ("exhaustive_smm_5to6_models", dict(kinds=["smm"], nmodels=[5, 6], lvals=[0, 1, 3], th="ThAll", pct="PctQuick",
                                             mix="MixOne", layouts=[3], max_updates=1, big_n=99, noobs_at=[1]), {}),
         ("exhaustive_gpb1_2to4_models", dict(kinds=["gpb1"], nmodels=[2, 3, 4], lvals=[0, 1, 3], th="ThQuick", pct="PctOne",
                                              mix="MixAll", layouts=[1], max_updates=3, big_n=99, gpb_big_n=3,
                                              noobs_at=[1, 2]), {}),
-        ("simulate_to_30_models", dict(max_updates=5, noobs_at=[1, 2, 3], **sim), dict(simulate="num=3000", depth=600)),
-        ("simulate_gpb1_to_30_models", dict(max_updates=3, noobs_at=[1, 2], **dict(sim, kinds=["gpb1"])),
+        ("simulate_smm_to_30_models", dict(max_updates=5, noobs_at=[1, 2, 3], **dict(sim, kinds=["smm"])),
+         dict(simulate="num=3000", depth=600)),
+        ("simulate_gpb1_to_30_models", dict(max_updates=3, noobs_at=[1], **dict(sim, kinds=["gpb1"])),
          dict(simulate="num=1500", depth=400)),
     ]
 
@@ -902,7 +903,7 @@ def run(ctx: Ctx):
         "positive probability is admissible",
     ]
     plans = _plans(ctx.quick)
-    ntraces, max_steps = (120, 4) if ctx.quick else (2500, 6)
+    ntraces, max_steps = (120, 4) if ctx.quick else (1200, 6)
     nproc = max(1, min(8, ctx.cpus // 2))
     pool = mp.get_context("fork").Pool(nproc)       # forked before any thread exists
     _RT["pool"] = pool
